@@ -353,7 +353,33 @@ def bowl_curve(draw, nk, center, rlo, rhi, cw=False):
         C = place((0.0, -e / 2))
         curve = [bowl, [B, C], [C, A]]
     assume(A != B and no_collapsed_segment(curve) and rg.curve_area(curve) > 0)
+    assume(_segments_meet_only_at_corners(curve))
     return rg.curve_reverse(curve) if cw else curve
+
+
+def _segments_meet_only_at_corners(curve, gap_rel=0.03) -> bool:
+    """snapping to a coarse grid can push the lid through the bowl: the
+    segments may only meet at their shared end points, and interior samples
+    of one segment stay clear of the others"""
+    n = len(curve)
+    size = rg.curve_size(curve)
+    try:
+        for i in range(n):
+            for j in range(i + 1, n):
+                for c in rg.seg_seg_crossings(curve[i], curve[j]):
+                    t, u = float(c["t"]), float(c["u"])
+                    if min(t, 1 - t) > 1e-9 or min(u, 1 - u) > 1e-9:
+                        return False
+    except rg.Degenerate:
+        return False
+    for i in range(n):
+        sf = [rg.fl(q) for q in curve[i]]
+        for k in range(2, 15):
+            q = rg.bez_eval(sf, k / 16.0)
+            for j in range(n):
+                if j != i and not rg.seg_clear(curve[j], q, gap_rel * size * min(k, 16 - k) / 8.0):
+                    return False
+    return True
 
 
 @st.composite
